@@ -14,7 +14,7 @@ CHECKS = {
              "arbitrary file collections (unbounded integer timestamps, command counts, byte sizes, limits, clock, boot time) and "
              "compared with a 15-line reference; every obligation's path tree is exhausted, so the verdict covers every input "
              "within the bound on the number of files. A readable history file without the ts key is a third kind of corrupt member.",
-        note="Bounds: <=4 files for selectors, <=3 for run(), <=2 for files()/end-to-end (quick); 6/6/3 (thorough). Trusted: CrossHair's "
+        note="Bounds: <=4 files for selectors, <=3 for run(), <=2 for files()/end-to-end (quick); 6/5/2 plus three 3-file patterns (thorough). Trusted: CrossHair's "
              "int/list/tuple models and z3; LazyJSON, os.remove, clock and boot time are stubs with the contracts listed in the evidence "
              "file. SQLite backend and float timestamps are outside the claim.",
         ref="DESIGN.md 4 C14",
@@ -41,7 +41,7 @@ CHECKS = {
              "thread at API-call granularity. The solver case-splits the finite-domain choices and decides each path; all trees exhaust. One scope is also entered through every calling form of swap (mapping, keyword, both for the same key) on an unregistered variable and on each member of a real sync= pair, comparing the partner's read paths too.",
         note="Finite-domain claim: the case split is over class representatives (values are opaque to the code). Thread obligation: "
              "the thread-local storage is replaced by per-logical-thread dicts, interleaving granularity is one Env call. "
-             "$UPDATE_OS_ENVIRON mirroring and real preemption inside a call are outside. Two defects found here were repaired (fix: commits).",
+             "$UPDATE_OS_ENVIRON mirroring and real preemption inside a call are outside. Five defects found here were repaired (fix: commits).",
         ref="DESIGN.md 4 C11",
     ),
     "C20": dict(
